@@ -2,6 +2,7 @@
 (* spec -> code: operation sequences of LinkedFloatEnum for every table/shape *)
 EXTENDS LinkedFloatEnum, Json, Sequences
 CONSTANTS Depth,
+          Setups,   \* the (shape, mode) pairs explored, written "rw-echo", "w-clamp", ...
           XW,       \* ticks written to the float parameter
           WPos,     \* positions (0 = smallest index) written to the index parameter
           APos,     \* positions assigned to the index parameter by the driver
@@ -11,12 +12,13 @@ VARIABLE hist
 Nth(k) == CHOOSE i \in Idxs : Cardinality({j \in Idxs : j < i}) = k
 Has(k) == k < Cardinality(Idxs)
 
-Obs == [idx |-> idx', hw |-> hw', val |-> val', last |-> last']
+Obs == [idx |-> idx', hw |-> hw', req |-> req', val |-> val', last |-> last']
 Rec(a) == hist' = Append(hist, a @@ [exp |-> Obs])
 
 GInit == /\ FInit
-         /\ hist = <<[act |-> "init", tab |-> tab, shape |-> shape, table |-> T,
-                      exp |-> [idx |-> idx, hw |-> hw, val |-> val, last |-> last]]>>
+         /\ (shape \o "-" \o mode) \in Setups
+         /\ hist = <<[act |-> "init", tab |-> tab, shape |-> shape, mode |-> mode, cap |-> Cap, table |-> T,
+                      exp |-> [idx |-> idx, hw |-> hw, req |-> req, val |-> val, last |-> last]]>>
 GNext == \/ \E x \in XW : WriteFloat(x) /\ Rec([act |-> "wf", x |-> x])
          \/ \E k \in WPos : Has(k) /\ WriteIdx(Nth(k)) /\ Rec([act |-> "wi", i |-> Nth(k)])
          \/ \E k \in APos : Has(k) /\ AssignIdx(Nth(k)) /\ Rec([act |-> "ai", i |-> Nth(k)])
